@@ -19,6 +19,7 @@ func init() {
 }
 
 func checkC11(c *Ctx) {
+	c.exactOpenFlags = true
 	c.ruleWriteShape()
 	c.ruleShortWrite("F5.shortwrite")
 	c.ruleReadShape()
@@ -74,6 +75,9 @@ func checkC12(c *Ctx) {
 	}
 	// F11: fresh buffers on the read path (a cached/shared buffer is drained by the first reader)
 	c.ruleFreshRead()
+	// a register per variable: each definition maps to its own file, opened in append mode only for append writes
+	c.ruleWriteShape()
+	c.ruleArgMapping()
 	c.R.Floor("F9.truncate", 1)
 	c.R.Floor("F10.strip", 1)
 	c.R.Floor("F11.fresh", 1)
